@@ -1004,6 +1004,79 @@ def apply_field_aliases(j):
     return amap
 
 
+def apply_regroup_aliases(j):
+    """Regroup-proofing.  A reviewed variant `V { a, b, c }` (tables/private_fields.json) that now holds ONE value of a
+    struct S unknown to the reviewed tree, S having exactly the fields a, b, c: `V(S { a, b, c })`.  The variant is
+    read as before: the ADT facts list S's fields for V, a place `(x as V).0.a` is `(x as V).a`, and an aggregate
+    `V(s)` is `V { a: s.a, b: s.b, c: s.c }` (s itself - built here, or returned whole by a call - keeps its own
+    definition, which the provenance follows member by member).  Returns {adt: {variant: S}} for the evidence."""
+    tab = _field_table().get(j.get('crate'), {})
+    adts = {a['path']: a for a in j['adts']}
+    known_adts = set((_adt_table().get(j.get('crate')) or {}).keys()) if '_adt_table' in globals() else set()
+    rmap = {}
+    for a in j['adts']:
+        rv = tab.get(a['path'])
+        if not rv:
+            continue
+        for v in a['variants']:
+            want = rv.get(v['name'])
+            if not want or len(want) < 2 or len(v['fields']) != 1:
+                continue
+            sty = re.sub(r'<.*$', '', v['fields'][0].get('ty') or '')
+            S = adts.get(sty)
+            if S is None or S.get('kind') != 'struct' or not S.get('variants') or sty in tab or sty in known_adts:
+                continue
+            sf = S['variants'][0]['fields']
+            if sorted(x['name'] for x in sf) != sorted(w[0] for w in want):
+                continue
+            rmap.setdefault(a['path'], {})[v['name']] = {'S': sty, 'fields': [x['name'] for x in sf]}
+            v['regrouped_from'] = sty
+            v['fields'] = [dict(x) for x in sf]
+    if not rmap:
+        return rmap
+
+    def fix_proj(proj):
+        out, i, var = [], 0, None
+        while i < len(proj):
+            e = proj[i]
+            if isinstance(e, dict) and 'as' in e:
+                var = e['as']
+                out.append(e); i += 1
+                continue
+            if isinstance(e, dict) and e.get('of') in rmap and e.get('i') == 0:
+                vm = rmap[e['of']]
+                g = vm.get(var) if var is not None else (next(iter(vm.values())) if len(vm) == 1 else None)
+                nx = proj[i + 1] if i + 1 < len(proj) else None
+                if g and isinstance(nx, dict) and nx.get('of') == g['S'] and nx.get('f') in g['fields']:
+                    out.append({'f': nx['f'], 'i': nx.get('i'), 'of': e['of']})
+                    i += 2
+                    var = None
+                    continue
+            var = None
+            out.append(e); i += 1
+        proj[:] = out
+
+    def walk(x):
+        if isinstance(x, dict):
+            if 'p' in x and isinstance(x['p'], list):
+                fix_proj(x['p'])
+            if x.get('k') == 'agg' and x.get('adt') in rmap and len(x.get('ops') or []) == 1:
+                g = rmap[x['adt']].get(x.get('variant'))
+                pl = (x['ops'][0].get('move') or x['ops'][0].get('copy')) if g and isinstance(x['ops'][0], dict) else None
+                if g and pl is not None:
+                    x['fields'] = list(g['fields'])
+                    x['ops'] = [{'copy': {'l': pl['l'], 'p': list(pl.get('p', [])) + [{'f': n_, 'i': k_, 'of': g['S']}]}} for k_, n_ in enumerate(g['fields'])]
+                    x['regrouped'] = True
+            for v in x.values():
+                walk(v)
+        elif isinstance(x, list):
+            for v in x:
+                walk(v)
+    for b in j['bodies']:
+        walk(b)
+    return rmap
+
+
 _FN_TABLE = None
 
 
@@ -1216,6 +1289,7 @@ class Facts:
     def __init__(self, path):
         self.j, self.type_aliases = _load_with_type_aliases(path)
         self.field_aliases = apply_field_aliases(self.j)
+        self.regroup_aliases = apply_regroup_aliases(self.j)
         self.fn_aliases = apply_fn_aliases(self.j)
         self.path = path
         self.crate = self.j['crate']
